@@ -74,4 +74,40 @@ def C15_target_full : Prop :=
   ∀ (inp : Input) (s : Sys), Reach inp s → ∀ n nd g, s.nodes n = some nd → nd.task.rx = some g →
     nd.task.loader = none → ∃ o, s.targets (inp.gtarget g) = some o ∧ o ∈ nd.task.deps
 
+/-! ### non-vacuity: a static trigger `0`; one creator with `creates=[1, 2]` (two loader objects, `executed = 0`) that
+    yields task 1 and task 2 (which depends on 1); a static task 3 depending on both placeholders, selected.  The
+    nodes of BOTH placeholders exist before the creator is evaluated. -/
+
+def exInput (covers : Bool) : Input :=
+  { tasks0 := [(0, { act := true, oid := 0 }), (1, { deps := [0], loader := some 0, oid := 1 }),
+               (2, { deps := [0], loader := some 1, oid := 2 }), (3, { deps := [1, 2], act := true, oid := 3 })]
+    targets0 := []
+    creatorOf := fun _ => 0
+    execOf := fun _ => some 0
+    baseOf := fun _ => none
+    gtarget := fun _ => 0
+    gtasks0 := fun _ => []
+    make := fun _ _ => if covers then [{ name := 1 }, { name := 2, deps := [1] }] else [{ name := 1 }]
+    sel := [3] }
+
+/-- the hypotheses of the theorems hold for the example, its run ends regularly, the creator was evaluated (exactly
+    once), after the trigger, and the created tasks and the selected task were executed -/
+example :
+    resolvesB (exInput true) = true ∧ coversB (exInput true) = true ∧ trigB (exInput true) = true ∧
+    (autoRun (exInput true) 200 (init (exInput true))).susp = .stopIter ∧
+    (autoRun (exInput true) 200 (init (exInput true))).events.reverse =
+      [.start 0, .success 0, .creator 0, .start 1, .success 1, .start 2, .success 2, .start 3, .success 3] := by
+  decide
+
+example : Reach (exInput true) (autoRun (exInput true) 200 (init (exInput true))) :=
+  autoRun_reach 200 _ Reach.init
+
+/-- `coversB` is necessary: when the creator does not yield the second name it declares, the second loader object
+    (its own `created` flag) evaluates it again — the pinned behaviour, open finding `creates-not-yielded` -/
+theorem once_needs_covers :
+    resolvesB (exInput false) = true ∧ coversB (exInput false) = false ∧
+    Reach (exInput false) (autoRun (exInput false) 200 (init (exInput false))) ∧
+    onceOK (autoRun (exInput false) 200 (init (exInput false))).events = false :=
+  ⟨by decide, by decide, autoRun_reach 200 _ Reach.init, by decide⟩
+
 end DoitModel.C15
